@@ -61,6 +61,10 @@ type core struct {
 	recvPackets int // RTP packets received from publishers
 	afterClose  int // packet callbacks after the session's OnSessionClose
 	sessClosed  map[*gortsplib.ServerSession]bool
+	// OnStreamWriteError calls (write queue of a reading session full, ...), per session in the order
+	// in which the sessions first failed: the slow-reader stage uses them to see that a writer is blocked
+	writeErrs     map[*gortsplib.ServerSession]int
+	writeErrOrder []*gortsplib.ServerSession
 }
 
 func (c *core) OnConnOpen(ctx *gortsplib.ServerHandlerOnConnOpenCtx) {
@@ -108,9 +112,16 @@ func (c *core) OnSessionClose(ctx *gortsplib.ServerHandlerOnSessionCloseCtx) {
 	c.mu.Unlock()
 }
 
-func (c *core) OnDecodeError(_ *gortsplib.ServerHandlerOnDecodeErrorCtx)           {}
-func (c *core) OnPacketsLost(_ *gortsplib.ServerHandlerOnPacketsLostCtx)           {}
-func (c *core) OnStreamWriteError(_ *gortsplib.ServerHandlerOnStreamWriteErrorCtx) {}
+func (c *core) OnDecodeError(_ *gortsplib.ServerHandlerOnDecodeErrorCtx) {}
+func (c *core) OnPacketsLost(_ *gortsplib.ServerHandlerOnPacketsLostCtx) {}
+func (c *core) OnStreamWriteError(ctx *gortsplib.ServerHandlerOnStreamWriteErrorCtx) {
+	c.mu.Lock()
+	if _, ok := c.writeErrs[ctx.Session]; !ok {
+		c.writeErrOrder = append(c.writeErrOrder, ctx.Session)
+	}
+	c.writeErrs[ctx.Session]++
+	c.mu.Unlock()
+}
 
 func okRes() *base.Response       { return &base.Response{StatusCode: base.StatusOK} }
 func notFoundRes() *base.Response { return &base.Response{StatusCode: base.StatusNotFound} }
@@ -405,6 +416,7 @@ func childMain(cfgJSON string) {
 		connState:  map[*gortsplib.ServerConn]int{},
 		sessState:  map[*gortsplib.ServerSession]int{},
 		sessClosed: map[*gortsplib.ServerSession]bool{},
+		writeErrs:  map[*gortsplib.ServerSession]int{},
 	}
 	var srv *gortsplib.Server
 	udpPort := 0
@@ -452,6 +464,7 @@ func childMain(cfgJSON string) {
 	// feed the stream
 	stopFeed := make(chan struct{})
 	feedDone := make(chan struct{})
+	var feedMu sync.Mutex // the ticker feeder and a burst (command B) never write at the same time
 	go func() {
 		defer close(feedDone)
 		t := time.NewTicker(5 * time.Millisecond)
@@ -463,6 +476,7 @@ func childMain(cfgJSON string) {
 				return
 			case <-t.C:
 				seq++
+				feedMu.Lock()
 				stream.WritePacketRTP(stream.Desc.Medias[0], &rtp.Packet{ //nolint:errcheck
 					Header:  rtp.Header{Version: 2, PayloadType: 96, SequenceNumber: seq, Timestamp: uint32(seq) * 900},
 					Payload: []byte{5, 1, 2, 3, 4},
@@ -471,6 +485,7 @@ func childMain(cfgJSON string) {
 					Header:  rtp.Header{Version: 2, PayloadType: 97, SequenceNumber: seq, Timestamp: uint32(seq) * 480},
 					Payload: []byte{1, 2, 3, 4},
 				})
+				feedMu.Unlock()
 			}
 		}
 	}()
@@ -502,9 +517,53 @@ func childMain(cfgJSON string) {
 	port := srv.NetListener().Addr().String()
 	say(fmt.Sprintf("READY %s %d", port[strings.LastIndex(port, ":")+1:], udpPort))
 
+	// burst: count RTP packets with size-byte payloads to every media of the stream, as fast as possible
+	// (slow-reader stage: fills the socket buffers of a peer that has stopped reading). The answer lists
+	// the OnStreamWriteError calls so far, per session.
+	burstSeq := uint16(0)
+	burst := func(count, size int) string {
+		if count < 0 || count > 100000 || size < 1 || size > 1400 {
+			return "BAD"
+		}
+		video := make([]byte, size)
+		video[0] = 5
+		audio := make([]byte, size)
+		feedMu.Lock()
+		for i := 0; i < count; i++ {
+			burstSeq++
+			stream.WritePacketRTP(stream.Desc.Medias[0], &rtp.Packet{ //nolint:errcheck
+				Header:  rtp.Header{Version: 2, PayloadType: 96, SequenceNumber: 30000 + burstSeq, Timestamp: uint32(burstSeq) * 900},
+				Payload: video,
+			})
+			stream.WritePacketRTP(stream.Desc.Medias[1], &rtp.Packet{ //nolint:errcheck
+				Header:  rtp.Header{Version: 2, PayloadType: 97, SequenceNumber: 30000 + burstSeq, Timestamp: uint32(burstSeq) * 480},
+				Payload: audio,
+			})
+		}
+		feedMu.Unlock()
+		var sb strings.Builder
+		sb.WriteString("OK")
+		c.mu.Lock()
+		for _, ss := range c.writeErrOrder {
+			fmt.Fprintf(&sb, " %d", c.writeErrs[ss])
+		}
+		c.mu.Unlock()
+		return sb.String()
+	}
+
 	in := bufio.NewScanner(os.Stdin)
 	for in.Scan() {
-		switch strings.TrimSpace(in.Text()) {
+		line := strings.TrimSpace(in.Text())
+		if strings.HasPrefix(line, "B ") {
+			var count, size int
+			if n, _ := fmt.Sscanf(line, "B %d %d", &count, &size); n != 2 {
+				say("BAD")
+				continue
+			}
+			say(burst(count, size))
+			continue
+		}
+		switch line {
 		case "S":
 			b, _ := json.Marshal(stats(true))
 			say(string(b))
